@@ -29,9 +29,26 @@ def _field_problems(field, lx, ly, bmin, eps=1e-9):
 def _domains_check(a):
     from ghedesigner import domains as dm
 
-    lx, ly, bmin, bx, by = a["length"], a["width"], a["b_min"], a["b_max_x"], a["b_max_y"]
     kind = a["kind"]
+    if kind == "near_square":
+        from contracts.realruns import build_manager
+
+        g = build_manager({"geom": "near_square", "b": a["b"], "length": a["length"]})
+        dom = g._design.coordinates_domain
+        sizes = [len(f) for f in dom]
+        if sizes != sorted(sizes) or sizes[0] != 1:
+            return False, {"why": "near-square list not ordered / does not start with one borehole", "signature": "near_square/order"}
+        for m, f in enumerate(dom):
+            i, j = 1 + m // 2, m % 2
+            want = [(p * a["b"], q * a["b"]) for p in range(i) for q in range(i + j)]
+            if [tuple(c) for c in f] != want:
+                return False, {"why": f"field {m} is not the {i} x {i + j} grid at spacing b", "signature": "near_square/grid"}
+            if (i - 1) * a["b"] > a["length"] * (1 + 1e-12):
+                return False, {"why": f"field {m}: {i} x {i + j} grid has side {(i - 1) * a['b']} m > length {a['length']} m", "signature": "near_square/length"}
+        return True, {}
+    lx, ly, bmin, bx, by = a["length"], a["width"], a["b_min"], a["b_max_x"], a["b_max_y"]
     from math import ceil, floor
+
 
     l1, l2 = max(lx, ly), min(lx, ly)
     b1, b2 = (bx, by) if lx >= ly else (by, bx)
@@ -65,6 +82,9 @@ def _domains_check(a):
 
 
 def _domains_gen(rng):
+    if rng.random() < 0.2:
+        b = rng.choice([5.0, 5.5, 6.0, 6.096, 7.3])
+        return {"kind": "near_square", "b": b, "length": rng.choice([20.0, 22.0, 47.3, 100.0, 155.0, b * 7, b * 7.5, b * 7.51, b * 8.49])}
     kind = rng.choice(["rectangle", "bi_rectangle", "bi_zoned"])
     l, w = rng.choice([(85.0, 40.0), (40.0, 85.0), (60.0, 60.0), (36.5, 85.0), (85.0, 36.5), (100.0, 33.3), (47.3, 52.1), (30.0, 30.0)])
     bmin = rng.choice([2.0, 2.8, 3.0, 4.5, 5.0])
@@ -75,3 +95,368 @@ def _domains_gen(rng):
 
 native(f"{DM}:bi_rectangle_zoned_nested", _domains_check, _domains_gen, None,
        bound="rectangle / bi-rectangle / bi-zoned generators on 8 lots (both orientations, square, non-integer ratios) x 5 b_min x 4 b_max offsets; land, pairwise spacing (1e-9 slack), coincidence, ordering")
+
+
+# ---- coordinates.py: lattice shapes.  Postconditions without existentials: bounding box, pairwise separation, count ------
+def xs(p):
+    return p[0]
+
+
+def BOX(r, lo_x, lo_y, hi_x, hi_y, upto=None):
+    n = r.len if upto is None else upto
+    return forall(1, lambda k: Implies(And(0 <= k, k < n), And(lo_x <= r[k][0], r[k][0] <= hi_x, lo_y <= r[k][1], r[k][1] <= hi_y)))
+
+
+def absv(x):
+    return If(x >= 0, x, -x)
+
+
+def SEP(r, sx, sy, upto=None):
+    """any two boreholes differ by at least sx in x or by at least sy in y (=> at least min(sx, sy) apart, none coincide)"""
+    n = r.len if upto is None else upto
+    return forall(2, lambda a, b: Implies(And(0 <= a, a < b, b < n), Or(absv(r[a][0] - r[b][0]) >= sx, absv(r[a][1] - r[b][1]) >= sy)))
+
+
+def _empty(r):
+    return isinstance(r.len, int) and r.len == 0
+
+
+def _rect_outer(E):
+    r, i = E.r, E.i
+    x0, y0 = E.origin[0], E.origin[1]
+    if _empty(r):
+        return i == 0
+    return And(r.len == i * E.num_bh_y,
+               BOX(r, x0, y0, x0 + to_real(i - 1) * E.spacing_x, y0 + to_real(E.num_bh_y - 1) * E.spacing_y),
+               SEP(r, E.spacing_x, E.spacing_y))
+
+
+def _rect_inner(E):
+    r, i, j = E.r, E.i, E.j
+    x0, y0 = E.origin[0], E.origin[1]
+    start = E.pre.r.len
+    row = forall(1, lambda k: Implies(And(start <= k, k < r.len), And(r[k][0] == x0 + to_real(i) * E.spacing_x, r[k][1] == y0 + to_real(k - start) * E.spacing_y)))
+    if _empty(r):
+        return And(j == 0, start == 0)
+    return And(r.len == start + j, start == i * E.num_bh_y, row,
+               BOX(r, x0, y0, x0 + to_real(i - 1) * E.spacing_x, y0 + to_real(E.num_bh_y - 1) * E.spacing_y, upto=start),
+               SEP(r, E.spacing_x, E.spacing_y, upto=start))
+
+
+contract(f"{CO}:rectangle", dict(num_bh_x=Int, num_bh_y=Int, spacing_x=Real, spacing_y=Real, origin=TupleOf(Real, Real)),
+         requires=[("counts", lambda E: And(E.num_bh_x >= 0, E.num_bh_y >= 0)), ("positive-spacing", lambda E: And(E.spacing_x > 0, E.spacing_y > 0))],
+         loops={0: LoopSpec(invariants=[("rows-so-far", _rect_outer)], shapes={"r": ListOf(Point)}),
+                1: LoopSpec(invariants=[("row-so-far", _rect_inner)], shapes={"r": ListOf(Point)})},
+         ensures=[("count", lambda E: E.result.len == E.num_bh_x * E.num_bh_y),
+                  ("inside-its-bounding-box", lambda E: BOX(E.result, E.origin[0], E.origin[1], E.origin[0] + to_real(E.num_bh_x - 1) * E.spacing_x, E.origin[1] + to_real(E.num_bh_y - 1) * E.spacing_y)),
+                  ("pairwise-separated", lambda E: SEP(E.result, E.spacing_x, E.spacing_y))],
+         returns=ListOf(Point))
+
+
+# transpose_coordinates: swaps the components, keeps the order
+contract(f"{CO}:transpose_coordinates", dict(coordinates=ListOf(Point)),
+         loops={0: LoopSpec(invariants=[("swapped-so-far", lambda E: _swapped(E, E.coordinates_transposed, E._k0))], shapes={"coordinates_transposed": ListOf(Point)})},
+         ensures=[("swapped", lambda E: And(E.result.len == E.coordinates.len, _swapped(E, E.result, E.coordinates.len)))],
+         returns=ListOf(Point))
+
+
+def _swapped(E, out, upto):
+    if _empty(out):
+        return upto == 0 if not isinstance(upto, int) else upto == 0
+    return And(out.len == upto, forall(1, lambda k: Implies(And(0 <= k, k < upto), And(out[k][0] == E.coordinates[k][1], out[k][1] == E.coordinates[k][0]))))
+
+
+# ---- line-built shapes: every loop appends points of one row (fixed y) or one column (fixed x) ---------------------------
+def ROW(r, lo, hi, y, x_of):
+    """elements lo..hi-1 are (x_of(k - lo), y)"""
+    return forall(1, lambda k: Implies(And(lo <= k, k < hi), And(r[k][0] == x_of(k - lo), r[k][1] == y)))
+
+
+def COL(r, lo, hi, x, y_of):
+    return forall(1, lambda k: Implies(And(lo <= k, k < hi), And(r[k][0] == x, r[k][1] == y_of(k - lo))))
+
+
+def _l_shape_inv0(E):
+    r = E.l_shape_object
+    if _empty(r):
+        return E.i == 0
+    return And(r.len == E.i, ROW(r, 0, r.len, 0, lambda t: to_real(t) * E.b_x))
+
+
+def _l_shape_inv1(E):
+    r = E.l_shape_object
+    nx = If(E.n_x > 0, E.n_x, 0)
+    return And(r.len == nx + (E.j - 1), ROW(r, 0, nx, 0, lambda t: to_real(t) * E.b_x), COL(r, nx, r.len, 0, lambda t: to_real(t + 1) * E.b_y))
+
+
+def l_shape_post(E, r, n_x, n_y, b_x, b_y):
+    nx = If(n_x > 0, n_x, 0)
+    return And(r.len == nx + If(n_y > 1, n_y - 1, 0), ROW(r, 0, nx, 0, lambda t: to_real(t) * b_x), COL(r, nx, r.len, 0, lambda t: to_real(t + 1) * b_y))
+
+
+contract(f"{CO}:l_shape", dict(n_x=Int, n_y=Int, b_x=Real, b_y=Real),
+         requires=[("positive-spacing", lambda E: And(E.b_x > 0, E.b_y > 0)), ("at-least-one", lambda E: And(E.n_x >= 1, E.n_y >= 1))],
+         loops={0: LoopSpec(invariants=[("bottom-row", _l_shape_inv0)], shapes={"l_shape_object": ListOf(Point)}),
+                1: LoopSpec(invariants=[("left-column", _l_shape_inv1)], shapes={"l_shape_object": ListOf(Point)})},
+         ensures=[("row-then-column", lambda E: l_shape_post(E, E.result, E.n_x, E.n_y, E.b_x, E.b_y)),
+                  ("inside-its-bounding-box", lambda E: BOX(E.result, 0, 0, to_real(E.n_x - 1) * E.b_x, to_real(E.n_y - 1) * E.b_y)),
+                  ("pairwise-separated", lambda E: SEP(E.result, E.b_x, E.b_y))],
+         returns=ListOf(Point))
+
+
+# generic description of shapes made of consecutive segments, one per loop
+class Seg:
+    def __init__(self, kind, var, first, count, fixed, step):
+        """kind 'row' (points (t*step, fixed)) or 'col' (points (fixed, t*step)); loop variable `var` runs from `first`;
+        count(E) = number of points, fixed(E) = the constant coordinate, step(E) = spacing; t = first + position in the segment"""
+        self.kind, self.var, self.first, self.count, self.fixed, self.step = kind, var, first, count, fixed, step
+
+
+def seg_desc(E, r, segs, upto_seg, cur_len=None):
+    """segments 0..upto_seg-1 are complete; segment upto_seg (if any) is described up to the current length"""
+    cs = []
+    off = IntVal(0)
+    for k, s in enumerate(segs[: upto_seg + 1]):
+        cnt = s.count(E)
+        cnt = If(cnt > 0, cnt, 0)
+        hi = off + cnt if k < upto_seg else (cur_len if cur_len is not None else off + cnt)
+        if k == upto_seg and cur_len is None and k >= len(segs):
+            break
+        f = (lambda t, s=s: to_real(t + s.first) * s.step(E))
+        cs.append(ROW(r, off, hi, s.fixed(E), f) if s.kind == "row" else COL(r, off, hi, s.fixed(E), f))
+        off = off + cnt
+    return cs, off
+
+
+def seg_inv(rname, segs, k):
+    def inv(E):
+        r = getattr(E, rname)
+        if _empty(r):
+            return getattr(E, segs[k].var) == segs[k].first if k == 0 else False
+        prev = IntVal(0)
+        for s in segs[:k]:
+            c = s.count(E)
+            prev = prev + If(c > 0, c, 0)
+        cs, _ = seg_desc(E, r, segs, k, cur_len=r.len)
+        return And(r.len == prev + (getattr(E, segs[k].var) - segs[k].first), *cs)
+    return inv
+
+
+def seg_post(segs):
+    def post(E, r):
+        cs, total = seg_desc(E, r, segs, len(segs) - 1)
+        return And(r.len == total, *cs)
+    return post
+
+
+def shape_contract(name, params, rname, segs, box, requires_extra=()):
+    return contract(f"{CO}:{name}", params,
+                    requires=[("positive-spacing", lambda E: And(E.b_x > 0, E.b_y > 0))] + list(requires_extra),
+                    loops={k: LoopSpec(invariants=[(f"segment-{k}", seg_inv(rname, segs, k))], shapes={rname: ListOf(Point)}) for k in range(len(segs))},
+                    ensures=[("segments", lambda E: seg_post(segs)(E, E.result)),
+                             ("inside-its-bounding-box", lambda E: BOX(E.result, 0, 0, *box(E))),
+                             ("pairwise-separated", lambda E: SEP(E.result, E.b_x, E.b_y))],
+                    returns=ListOf(Point))
+
+
+LOPU = [Seg("row", "i", 0, lambda E: E.n_x, lambda E: RealVal(0), lambda E: E.b_x),
+        Seg("col", "j", 1, lambda E: E.n_y_1 - 1, lambda E: RealVal(0), lambda E: E.b_y),
+        Seg("col", "j", 1, lambda E: E.n_y_2 - 1, lambda E: to_real(E.n_x - 1) * E.b_x, lambda E: E.b_y)]
+shape_contract("lop_u", dict(n_x=Int, n_y_1=Int, b_x=Real, b_y=Real, n_y_2=Int), "_lop_u", LOPU,
+               lambda E: (to_real(E.n_x - 1) * E.b_x, to_real(If(E.n_y_1 >= E.n_y_2, E.n_y_1, E.n_y_2) - 1) * E.b_y),
+               [("counts", lambda E: And(E.n_x >= 2, E.n_y_1 >= 1, E.n_y_2 >= 1))])
+
+CSH = [Seg("row", "i", 0, lambda E: E.n_x_1, lambda E: RealVal(0), lambda E: E.b_x),
+       Seg("col", "j", 1, lambda E: E.n_y - 1, lambda E: RealVal(0), lambda E: E.b_y),
+       Seg("col", "j", 1, lambda E: E.n_y - 1, lambda E: to_real(E.n_x_1 - 1) * E.b_x, lambda E: E.b_y),
+       Seg("row", "i", 1, lambda E: E.n_x_2, lambda E: to_real(E.n_y - 1) * E.b_y, lambda E: E.b_x)]
+shape_contract("c_shape", dict(n_x_1=Int, n_y=Int, b_x=Real, b_y=Real, n_x_2=Int), "c", CSH,
+               lambda E: (to_real(E.n_x_1 - 1) * E.b_x, to_real(E.n_y - 1) * E.b_y),
+               [("counts", lambda E: And(E.n_x_1 >= 2, E.n_y >= 2, E.n_x_2 >= 0, E.n_x_2 <= E.n_x_1 - 2))])
+
+
+# open_rectangle: bottom row, then pairs (left, right) for the inner rows, then the top row; small cases are full rectangles
+def _or_parts(E, r, stage, j=None, i2=None):
+    nx, ny, sx, sy = E.num_bh_x, E.num_bh_y, E.spacing_x, E.spacing_y
+    W, H = to_real(nx - 1) * sx, to_real(ny - 1) * sy
+    cs = []
+    bottom_hi = r.len if stage == 0 else nx
+    cs.append(ROW(r, 0, bottom_hi, 0, lambda t: to_real(t) * sx))
+    if stage >= 1:
+        pairs = (j - 1) if stage == 1 else (ny - 2)
+        cs.append(forall(1, lambda k: Implies(And(nx <= k, k < nx + 2 * pairs),
+                                              And(r[k][0] == If((k - nx) % 2 == 0, RealVal(0), W), r[k][1] == to_real((k - nx) / 2 + 1) * sy,
+                                                  r[k][1] >= sy, r[k][1] <= H - sy))))  # linear consequences kept for the separation argument
+        cs.append(And(W >= 2 * sx, H >= 2 * sy))
+        if stage == 1:
+            cs.append(r.len == nx + 2 * (j - 1))
+    if stage == 2:
+        cs.append(ROW(r, nx + 2 * (ny - 2), r.len, H, lambda t: to_real(t) * sx))
+        cs.append(r.len == nx + 2 * (ny - 2) + i2)
+    return cs
+
+
+def _or_inv(stage):
+    def inv(E):
+        r = E.open_r
+        if _empty(r):
+            return E.i == 0 if stage == 0 else False
+        if stage == 0:
+            return And(r.len == E.i, *_or_parts(E, r, 0))
+        if stage == 1:
+            return And(*_or_parts(E, r, 1, j=E.j))
+        return And(*_or_parts(E, r, 2, i2=E.i))
+    return inv
+
+
+def open_rectangle_post(E, r, nx, ny, sx, sy, part=None):
+    W, H = to_real(nx - 1) * sx, to_real(ny - 1) * sy
+    if part == "box":
+        return BOX(r, 0, 0, W, H)
+    if part == "sep":
+        return SEP(r, sx, sy)
+    if part == "edge":
+        return Implies(And(nx > 2, ny > 2), forall(1, lambda k: Implies(And(0 <= k, k < r.len), Or(r[k][0] == 0, r[k][0] == W, r[k][1] == 0, r[k][1] == H))))
+    on_edge = forall(1, lambda k: Implies(And(0 <= k, k < r.len), Or(r[k][0] == 0, r[k][0] == W, r[k][1] == 0, r[k][1] == H)))
+    # (small cases nx <= 2 or ny <= 2 are full rectangles; the perimeter clause is claimed for the open case only)
+    return And(BOX(r, 0, 0, W, H), SEP(r, sx, sy), Implies(And(nx > 2, ny > 2), on_edge))
+
+
+contract(f"{CO}:open_rectangle", dict(num_bh_x=Int, num_bh_y=Int, spacing_x=Real, spacing_y=Real), options={"timeout_ms": 90000},
+         requires=[("counts", lambda E: And(E.num_bh_x >= 1, E.num_bh_y >= 1)), ("positive-spacing", lambda E: And(E.spacing_x > 0, E.spacing_y > 0))],
+         loops={0: LoopSpec(invariants=[("bottom-row", _or_inv(0))], shapes={"open_r": ListOf(Point)}),
+                1: LoopSpec(invariants=[("side-pairs", _or_inv(1))], shapes={"open_r": ListOf(Point)}),
+                2: LoopSpec(invariants=[("top-row", _or_inv(2))], shapes={"open_r": ListOf(Point)})},
+         ensures=[("inside-its-bounding-box", lambda E: open_rectangle_post(E, E.result, E.num_bh_x, E.num_bh_y, E.spacing_x, E.spacing_y, "box")),
+                  ("pairwise-separated", lambda E: open_rectangle_post(E, E.result, E.num_bh_x, E.num_bh_y, E.spacing_x, E.spacing_y, "sep")),
+                  ("on-the-perimeter", lambda E: open_rectangle_post(E, E.result, E.num_bh_x, E.num_bh_y, E.spacing_x, E.spacing_y, "edge")),
+                  ("count", lambda E: E.result.len == If(And(E.num_bh_x > 2, E.num_bh_y > 2), 2 * E.num_bh_x + 2 * (E.num_bh_y - 2), E.num_bh_x * E.num_bh_y))],
+         returns=ListOf(Point))
+
+
+# zoned_rectangle: perimeter + interior lattice
+def _zoned_post(E, r):
+    nx, ny, bx, by = E.n_x, E.n_y, E.b_x, E.b_y
+    W, H = to_real(nx - 1) * bx, to_real(ny - 1) * by
+    return And(BOX(r, 0, 0, W, H), SEP(r, bx, by))
+
+
+contract(f"{CO}:zoned_rectangle", dict(n_x=Int, n_y=Int, b_x=Real, b_y=Real, n_ix=Int, n_it=Int),
+         requires=[("positive-spacing", lambda E: And(E.b_x > 0, E.b_y > 0)), ("interior-counts", lambda E: And(E.n_ix >= 1, E.n_it >= 1, E.n_x >= 1, E.n_y >= 1))],
+         raises={"ValueError": lambda E: Or(E.n_ix > E.n_x - 2, E.n_it > E.n_y - 2)},
+         ensures=[("inside-its-bounding-box-and-separated", lambda E: _zoned_post(E, E.result)),
+                  ("count", lambda E: E.result.len == 2 * E.n_x + 2 * (E.n_y - 2) + E.n_ix * E.n_it)],
+         returns=ListOf(Point))
+
+
+# ---- domains.py ---------------------------------------------------------------------------------------------------------
+FieldL = ListOf(Point)
+Domain = ListOf(FieldL)
+
+
+def field_in_land(f, lx, ly, b):
+    """the field lies on the land rectangle and any two of its boreholes differ by >= b in x or in y"""
+    return And(BOX(f, 0, 0, lx, ly), SEP(f, b, b))
+
+
+def _sns_inv(E):
+    d = E.coordinates_domain
+    if _empty(d):
+        return E.i == E.lower
+    return And(d.len == 2 * (E.i - E.lower), E.field_descriptors.len == d.len, _sns_fields(E, d, d.len))
+
+
+def _sns_fields(E, d, upto):
+    b = E.b
+
+    def fld(m):
+        i = E.lower + m / 2
+        j = m % 2
+        return And(d[m].len == i * (i + j), BOX(d[m], 0, 0, to_real(i - 1) * b, to_real(i + j - 1) * b), SEP(d[m], b, b))
+
+    return forall(1, lambda m: Implies(And(0 <= m, m < upto), fld(m)))
+
+
+contract(f"{DM}:square_and_near_square", dict(lower=Int, upper=Int, b=Real),
+         requires=[("positive-spacing", lambda E: E.b > 0)],
+         raises={"ValueError": lambda E: Or(E.lower < 1, E.upper < 1, E.upper < E.lower)},
+         loops={0: LoopSpec(invariants=[("fields-so-far", _sns_inv)], shapes={"coordinates_domain": Domain, "field_descriptors": ListOf(OpaqueOf("str")), "coordinates": FieldL}),
+                1: LoopSpec(unroll=True)},
+         ensures=[("two-fields-per-size", lambda E: And(E.result[0].len == 2 * (E.upper - E.lower + 1), E.result[1].len == E.result[0].len)),
+                  ("n-by-n-and-n-by-n-plus-1-grids-at-spacing-b", lambda E: _sns_fields(E, E.result[0], E.result[0].len)),
+                  ("ordered-by-borehole-count", lambda E: forall(1, lambda m: Implies(And(0 <= m, m + 1 < E.result[0].len), E.result[0][m].len <= E.result[0][m + 1].len)))],
+         returns=TupleOf(Domain, ListOf(OpaqueOf("str"))))
+
+
+def _all_in_land(E, d):
+    if _empty(d):
+        return True
+    return forall(1, lambda m: Implies(And(0 <= m, m < d.len), field_in_land(d[m], E.length_x, E.length_y, E.b_min)))
+
+
+def _rect_facts(E):
+    """what the three loops share: the long/short side bookkeeping"""
+    l1 = If(E.length_x >= E.length_y, E.length_x, E.length_y)
+    l2 = If(E.length_x >= E.length_y, E.length_y, E.length_x)
+    return And(E.length_1 == l1, E.length_2 == l2, E.transpose == (E.length_x < E.length_y), E.n_min >= 2, E.n_max == ToInt(E.length_1 / E.b_min + 1))
+
+
+_RSH = {"rectangle_domain": Domain, "field_descriptors": ListOf(OpaqueOf("str")), "r": FieldL, "b": Real, "n_2": Int, "n_2_old": Int, "_iter": Int}
+
+contract(f"{DM}:rectangular", dict(length_x=Real, length_y=Real, b_min=Real, b_max=Real, disp=Const(False)),
+         requires=[("positive", lambda E: And(E.length_x > 0, E.length_y > 0, E.b_min > 0, E.b_min <= E.b_max))],
+         loops={0: LoopSpec(invariants=[("fields-on-the-land", lambda E: And(_rect_facts(E), _all_in_land(E, E.rectangle_domain), E.rectangle_domain.len == E.field_descriptors.len,
+                                                                              Or(E._iter == 0, E._iter == 1), (E._iter == 0) == (E.num_borehole == E.n_min)))],
+                            shapes=_RSH),
+                1: LoopSpec(invariants=[("fields-on-the-land", lambda E: And(_rect_facts(E), _all_in_land(E, E.rectangle_domain), E.rectangle_domain.len == E.field_descriptors.len,
+                                                                              E.num_borehole == E.n_min, E.b == E.length_1 / to_real(E.num_borehole - 1), E.b >= E.b_min,
+                                                                              E.n_2 == ToInt(E.length_2 / E.b + 1)))], shapes=_RSH),
+                2: LoopSpec(invariants=[("fields-on-the-land", lambda E: And(_rect_facts(E), _all_in_land(E, E.rectangle_domain), E.rectangle_domain.len == E.field_descriptors.len,
+                                                                              E.num_borehole == E.n_min, E.b == E.length_1 / to_real(E.num_borehole - 1), E.b >= E.b_min,
+                                                                              E.n_2 == ToInt(E.length_2 / E.b + 1)))], shapes=_RSH)},
+         ensures=[("every-field-on-the-land-with-spacing-at-least-b_min", lambda E: _all_in_land(E, E.result[0])),
+                  ("descriptors-aligned", lambda E: E.result[0].len == E.result[1].len)],
+         returns=TupleOf(Domain, ListOf(OpaqueOf("str"))))
+
+
+# ---- design.py constructors: which domain the search will see -----------------------------------------------------------------
+DS = "ghedesigner.design"
+_DBASE = dict(v_flow=Real, _borehole=ObjOf("x"), bhe_type=Int, fluid=ObjOf("x"), pipe=ObjOf("x"), grout=ObjOf("x"), soil=ObjOf("x"), sim_params=ObjOf("x"),
+              hourly_extraction_ground_loads=OpaqueOf("list"), method=OpaqueOf("enum"), flow_type=Int)
+
+
+def _near_square_fields(E):
+    d = E.self.coordinates_domain
+    b, length = E.geometric_constraints.b, E.geometric_constraints.length
+
+    def fld(m):
+        i = 1 + m / 2
+        j = m % 2
+        return And(d[m].len == i * (i + j), BOX(d[m], 0, 0, to_real(i - 1) * b, to_real(i + j - 1) * b), SEP(d[m], b, b), to_real(i - 1) * b <= length)
+
+    return And(d.len >= 2, E.self.fieldDescriptors.len == d.len, forall(1, lambda m: Implies(And(0 <= m, m < d.len), fld(m))),
+               forall(1, lambda m: Implies(And(0 <= m, m + 1 < d.len), d[m].len <= d[m + 1].len)), d[0].len == 1)
+
+
+contract(f"{DS}:DesignNearSquare.__init__",
+         dict(self=ObjOf(f"{DS}:DesignNearSquare"), geometric_constraints=ObjOf("gc", b=Real, length=Real), **_DBASE),
+         name=f"{DS}:DesignNearSquare.__init__#body",
+         requires=[("positive", lambda E: And(E.geometric_constraints.b > 0, E.geometric_constraints.length >= 0))],
+         ensures=[("near-square-grids-that-fit-the-length", _near_square_fields)],
+         returns=NoneT()).applies = lambda env: False
+
+
+def _rect_design_fields(E):
+    d = E.self.coordinates_domain
+    gc = E.geometric_constraints
+    return And(E.self.fieldDescriptors.len == d.len,
+               forall(1, lambda m: Implies(And(0 <= m, m < d.len), field_in_land(d[m], gc.length, gc.width, gc.b_min))))
+
+
+contract(f"{DS}:DesignRectangle.__init__",
+         dict(self=ObjOf(f"{DS}:DesignRectangle"), geometric_constraints=ObjOf("gc", length=Real, width=Real, b_min=Real, b_max_x=Real), **_DBASE),
+         name=f"{DS}:DesignRectangle.__init__#body",
+         requires=[("positive", lambda E: And(E.geometric_constraints.length > 0, E.geometric_constraints.width > 0, E.geometric_constraints.b_min > 0,
+                                              E.geometric_constraints.b_min <= E.geometric_constraints.b_max_x))],
+         ensures=[("fields-on-the-land-with-spacing-at-least-b_min", _rect_design_fields)],
+         returns=NoneT()).applies = lambda env: False
